@@ -475,6 +475,17 @@ fn exhaustive_small(args: &Args) {
 }
 
 fn sizes(r: &mut Rng, page: usize) -> usize {
+    if cfg!(miri) {
+        // keep page counts small under the interpreter (every step reads the whole bitmap out)
+        let page = page.min(8);
+        return match r.below(6) {
+            0 => 0,
+            1 => page + 1,
+            2 => 63 * page + r.usize_below(2 * page + 1),
+            3 => 64 * page + 1,
+            _ => r.usize_below(40 * page + 1),
+        };
+    }
     match r.below(14) {
         0 => 0,
         1 => 1,
@@ -522,7 +533,7 @@ pub fn run(args: &Args) {
     let hi = args.u64("maxops", 300);
     for case in args.cases(3000) {
         let mut r = Rng::new(args.seed(), "c09", case);
-        let mut page = *r.pick(&pages_list);
+        let mut page = if cfg!(miri) { *r.pick(&[1usize, 2, 3, 5, 7, 8]) } else { *r.pick(&pages_list) };
         let mut bs = sizes(&mut r, page);
         if r.chance(1, 10) {
             // page larger than the byte size
